@@ -129,19 +129,22 @@ theorem consts_device_poll :
 -- GenResp.classify_eq / status_is_200_only); the coarser text-level versions that used to live here alarmed on
 -- harmless rewrites (renaming a local, swapping if/else) and were dropped.
 
-def verifierLen : String := "code_verifier.secret().len()"
+/-- the verifier's length as the constructors read it (their parameter is written `p0`) -/
+def verifierLen : String := "p0.secret().len()"
 
 /-- C04: 32..=96 random bytes; verifier length 43..128 checked by BOTH challenge constructors; the two
-method names.  The byte bounds are the ones whose unpadded base64 length is exactly 43 and 128. -/
+method names.  The byte bounds are the ones whose unpadded base64 length is exactly 43 and 128.  The assertions
+are read as inclusive ranges `lo ≤ subject ≤ hi`, however they are spelt (`a..=b`, `a..b+1`, two comparisons,
+named constants, a shared private helper). -/
 theorem consts_pkce :
-    pkceBytesLo = 32 ∧ pkceBytesHi = 96 ∧ pkceBytesHiInclusive = true ∧ pkceBytesSubject = "&num_bytes" ∧
+    pkceBytesLo = 32 ∧ pkceBytesHi = 96 ∧ pkceBytesSubject = "p0" ∧
     pkceVerifierChecks.Perm
-      [{ fn_ := "from_code_verifier_sha256", conj := "&&", first := (verifierLen, ">=", 43), second := (verifierLen, "<=", 128) },
-       { fn_ := "from_code_verifier_plain", conj := "&&", first := (verifierLen, ">=", 43), second := (verifierLen, "<=", 128) }] ∧
+      [{ fn_ := "from_code_verifier_sha256", subject := verifierLen, lo := 43, hi := 128 },
+       { fn_ := "from_code_verifier_plain", subject := verifierLen, lo := 43, hi := 128 }] ∧
     pkceMethods.lookup "from_code_verifier_sha256" = some "S256" ∧
     pkceMethods.lookup "from_code_verifier_plain" = some "plain" ∧ pkceMethods.length = 2 ∧
     (4 * pkceBytesLo + 2) / 3 = 43 ∧ (4 * pkceBytesHi + 2) / 3 = 128 := by
-  refine ⟨?_, ?_, ?_, ?_, ?_, ?_, ?_, ?_, ?_, ?_⟩ <;> decide
+  refine ⟨?_, ?_, ?_, ?_, ?_, ?_, ?_, ?_, ?_⟩ <;> decide
 
 /-- C12: default entropy — 16 bytes for CSRF tokens, 32 bytes for PKCE verifiers (both constructors). -/
 theorem consts_random_bytes :
@@ -154,12 +157,12 @@ theorem consts_content_types :
     contentTypeJson = "application/json" ∧ contentTypeFormencoded = "application/x-www-form-urlencoded" := by
   refine ⟨?_, ?_⟩ <;> decide
 
-/-- C13: revocation refuses every scheme that is not exactly `https`. -/
+/-- C13: revocation refuses every URL whose scheme (of the endpoint passed in, `p0`) is not exactly `https`, with the
+insecure-URL error naming the revocation endpoint. -/
 theorem consts_revocation_https :
-    revokeSchemeLit = "https" ∧ revokeSchemeCheck.op = "!=" ∧
-    revokeSchemeCheck.lhs = "revocation_url.url().scheme()" ∧
-    revokeSchemeThen = "{returnErr(ConfigurationError::InsecureUrl(\"revocation\"));}" := by
-  refine ⟨?_, ?_, ?_, ?_⟩ <;> decide
+    revokeSchemeLit = "https" ∧ revokeSchemeSubject = "p0.url().scheme()" ∧
+    revokeSchemeError = ("InsecureUrl", "revocation") := by
+  refine ⟨?_, ?_, ?_⟩ <;> decide
 
 /-! ## Inventory -/
 
